@@ -768,6 +768,7 @@ class CallMixin:
         n = self.hload(s, l, 'len')
         self.hstore(s, l, 'elems', z3.Store(self.hload(s, l, 'elems'), n, self.coerce(s, args[0], l.cls.e)))
         self.hstore(s, l, 'len', n + 1)
+        s = self.apply_hints(s, 'list.append', (l, args[0]))
         return [(SNone(), s)]
 
     def lm_insert(self, l, args, kwargs, st, node):
